@@ -595,6 +595,15 @@ class LoopNorm(ast.NodeTransformer):
     def visit_For(self, node):
         self.generic_visit(node)
         node.body = self._continue_elim(node.body)
+        # for _ in range(K), K a literal <= 4, loop variable unused: the body K times
+        it = node.iter
+        if isinstance(it, ast.Call) and isinstance(it.func, ast.Name) and it.func.id == "range" and len(it.args) == 1 and not it.keywords \
+                and isinstance(it.args[0], ast.Constant) and isinstance(it.args[0].value, int) and 0 < it.args[0].value <= 4 and not node.orelse \
+                and isinstance(node.target, ast.Name) \
+                and not any(isinstance(n, (ast.Break, ast.Continue)) for s in node.body for n in ast.walk(s)) \
+                and not any(isinstance(n, ast.Name) and n.id == node.target.id for s in node.body for n in ast.walk(s)) \
+                and not any(isinstance(n, ast.Name) and isinstance(n.ctx, ast.Store) for s in node.body for n in ast.walk(s)):
+            return [copy.deepcopy(s) for _ in range(it.args[0].value) for s in node.body]
         # unroll literal tuple loops
         if isinstance(node.iter, (ast.Tuple, ast.List)) and 0 < len(node.iter.elts) <= 8 and isinstance(node.target, ast.Name) and not node.orelse \
                 and not any(isinstance(n, (ast.Break, ast.Continue)) for s in node.body for n in ast.walk(s)) \
@@ -1049,6 +1058,19 @@ class Canon(ast.NodeTransformer):
             return ast.copy_location(ast.IfExp(test=copy.deepcopy(E), body=R().visit(node.orelse), orelse=node.body), node)
         return node
 
+    def visit_UnaryOp(self, node):
+        self.generic_visit(node)
+        # not (a == b)  ==>  a != b   (equality, identity and membership only)
+        flip = {ast.Eq: ast.NotEq, ast.NotEq: ast.Eq, ast.Is: ast.IsNot, ast.IsNot: ast.Is, ast.In: ast.NotIn, ast.NotIn: ast.In}
+        if isinstance(node.op, ast.Not) and isinstance(node.operand, ast.Compare) and len(node.operand.ops) == 1 and type(node.operand.ops[0]) in flip:
+            c = node.operand
+            return ast.copy_location(ast.Compare(left=c.left, ops=[flip[type(c.ops[0])]()], comparators=c.comparators), node)
+        if isinstance(node.op, ast.Not) and isinstance(node.operand, ast.UnaryOp) and isinstance(node.operand.op, ast.Not):
+            inner = node.operand.operand
+            if isinstance(inner, (ast.Compare, ast.BoolOp)) or (isinstance(inner, ast.Call) and ast.unparse(inner.func) in ("any", "all", "isinstance", "bool", "hasattr")):
+                return inner
+        return node
+
     def visit_Subscript(self, node):
         self.generic_visit(node)
         # X[slice(a, b)]  ==>  X[a:b]
@@ -1156,6 +1178,15 @@ class AppendLoops(ast.NodeTransformer):
                         out.append(ast.copy_location(ast.Assign(targets=[st.targets[0]], value=comp, lineno=st.lineno), nxt))
                         i += 2
                         continue
+            # t = E ; X = t  |  return t      (t used nowhere else)   ==>   X = E | return E
+            if isinstance(st, ast.Assign) and len(st.targets) == 1 and isinstance(st.targets[0], ast.Name) and nxt is not None \
+                    and isinstance(nxt, (ast.Assign, ast.Return)) and isinstance(nxt.value, ast.Name) and nxt.value.id == st.targets[0].id \
+                    and self.uses.get(st.targets[0].id) == (1, 1) and not (isinstance(nxt, ast.Assign) and any(isinstance(t, ast.Name) and t.id == st.targets[0].id for t in nxt.targets)):
+                new = copy.copy(nxt)
+                new.value = st.value
+                out.append(ast.copy_location(new, st))
+                i += 2
+                continue
             # for T in IT: if C: return True   /  return False      ==>   return any(C for T in IT)
             if isinstance(st, ast.For) and not st.orelse and len(st.body) == 1 and isinstance(st.body[0], ast.If) and not st.body[0].orelse \
                     and len(st.body[0].body) == 1 and isinstance(st.body[0].body[0], ast.Return):
@@ -1214,6 +1245,20 @@ class AppendLoops(ast.NodeTransformer):
             out.append(st)
             i += 1
         return out
+
+    uses = {}
+
+    def visit_FunctionDef(self, node):
+        prev = self.uses
+        u = {}
+        for n in ast.walk(node):
+            if isinstance(n, ast.Name):
+                s_, l_ = u.get(n.id, (0, 0))
+                u[n.id] = (s_ + 1, l_) if isinstance(n.ctx, (ast.Store, ast.Del)) else (s_, l_ + 1)
+        self.uses = u
+        self.generic_visit(node)
+        self.uses = prev
+        return node
 
     def generic_visit(self, node):
         super().generic_visit(node)
